@@ -146,6 +146,58 @@ def big_hash(rep):
     return n
 
 
+def diatomics(rep, prop):
+    """ALL diatomics X-Y over the 118 elements (7021 graphs per class): different element pairs are different graphs with
+    different (element, neighbour elements) multisets, so their hashes must differ (C16) and they must compare unequal
+    (C02; compared inside every group of equal hashes, where a search that trusts the colours would go wrong, and as one
+    component of a larger graph)"""
+    import stereomolgraph as smgmod
+    from stereomolgraph.periodic_table import SYMBOLS
+    n = 0
+    for cls in (smgmod.MolGraph, smgmod.CondensedReactionGraph, smgmod.StereoMolGraph):
+        by_hash = {}
+        graphs = {}
+        for za in range(1, 119):
+            for zb in range(za, 119):
+                g = cls()
+                g.add_atom(0, SYMBOLS[za])
+                g.add_atom(1, SYMBOLS[zb])
+                g.add_bond(0, 1)
+                graphs[(za, zb)] = g
+                by_hash.setdefault(hash(g), []).append((za, zb))
+                n += 1
+        for h, grp in by_hash.items():
+            if len(grp) < 2:
+                continue
+            names = ["%s-%s" % (SYMBOLS[a], SYMBOLS[b]) for a, b in grp]
+            if prop == "C16":
+                rep.violation(f"C16|hash-collides-on-different-signature|diatomics|{cls.__name__}",
+                              "different diatomics have the same hash: " + ", ".join(names[:6]), {"group": names})
+            if prop == "C02":
+                for i in range(len(grp)):
+                    for j in range(i + 1, len(grp)):
+                        x, y = graphs[grp[i]], graphs[grp[j]]
+                        # alone, and as one component next to a chloromethane molecule
+                        big = []
+                        for d in (x, y):
+                            w = cls()
+                            for k, e in enumerate(("C", "H", "H", "H", "Cl")):
+                                w.add_atom(10 + k, e)
+                            for k in range(1, 5):
+                                w.add_bond(10, 10 + k)
+                            big.append(cls.compose([w, d]))
+                        for tag, (p_, q_) in (("alone", (x, y)), ("component", tuple(big))):
+                            n += 1
+                            try:
+                                v = (p_ == q_)
+                            except Exception as e:
+                                v = "raise:" + type(e).__name__
+                            if v is not False:
+                                rep.violation(f"C02|eq-lie|diatomics|{cls.__name__}|{tag}",
+                                              f"{names[i]} and {names[j]} ({tag}) compare equal: {v}", {"pair": [names[i], names[j]]})
+    return n
+
+
 def hepta(rep, prop):
     """a seven-coordinate centre without descriptor whose same-element ligands differ in what they carry (Mo(CO)4(CN)3):
     renamed / re-inserted copies are the same graph by construction, so they must compare equal (C01) and hash alike (C03)"""
@@ -255,6 +307,8 @@ def run(prop, tier):
         extra["high_degree_centre"] = high_degree(rep, tier)
     if prop in ("C01", "C03"):
         extra["hepta_coordinate_renamings"] = hepta(rep, prop)
+    if prop in ("C02", "C16"):
+        extra["all_diatomics"] = diatomics(rep, prop)
     if prop in ("C01", "C02"):
         from . import vf2trace
         ve = vf2trace.collect_eq(prop, tier, rep, common.seed())
